@@ -13,7 +13,8 @@ RULE = ("enum: 12 predefined sizes x 20 residues (each residue alone and inside 
         "harness's transcription of the documented partitions - the image of a residue is a member of its documented group, equal for all "
         "members, distinct across groups; returned alphabet as a set equals the set of representatives. 10% of the user-alphabet cases use sequences of 201-420 residues; user dictionaries may carry extra non-amino-acid keys; every returned alphabet list is modified by the harness after copying. Half of the random cases run on an object that has already made other calls (in particular a reduction with a different total user alphabet). Non-trivial: the sequence contains >=2 "
         "distinct residues that the alphabet merges (enum: every (size,residue) fact); distinct by (size/alphabet, sequences).")
-ASSUMPTIONS = ["PARTITIONS in vlc/ref.py transcribe the documented groups for sizes 2,3,4,5,6,8,10,11,12,15,18,20",
+ASSUMPTIONS = ["passing the signature's own default userAlphabet={} explicitly is the same request as omitting it (half of the predefined-size requests spell it out)",
+               "PARTITIONS in vlc/ref.py transcribe the documented groups for sizes 2,3,4,5,6,8,10,11,12,15,18,20",
                "sizes are passed as integers (strings that parse as integers are not asserted either way)",
                "extra keys beyond the 20 amino acids in a user dictionary can never apply to a valid sequence: they neither rescue a dictionary "
                "that lacks an amino acid nor change the reduction or the returned alphabet",
@@ -28,7 +29,14 @@ def reduce_(seq, size=20, user=None, case=None):
     if user is not None:
         out = o.get_reduced_alphabet_sequence(userAlphabet=user)
     else:
-        out = o.get_reduced_alphabet_sequence(size)
+        # a predefined alphabet, requested in one of the equivalent spellings (the signature's default {} spelled out = no user alphabet)
+        k = (len(seq) + size) % 4
+        if k == 1:
+            out = o.get_reduced_alphabet_sequence(size, {})
+        elif k == 2:
+            out = o.get_reduced_alphabet_sequence(alphabetSize=size, userAlphabet=dict())
+        else:
+            out = o.get_reduced_alphabet_sequence(size)
     if isinstance(out, tuple) and len(out) == 2 and isinstance(out[1], list):
         # the caller owns what it was handed: scribble on the returned list after taking a copy (a later call must not notice)
         res = (out[0], list(out[1]))
